@@ -104,8 +104,8 @@ def worker(batch):
             rewritten = set()
             for hi, states in enumerate(r["states"]):
                 for name in ir["params"]:
-                    if r["docs"][hi].get(name) != T.norm_doc(ir["params"][name].get("doc")):
-                        rewritten.add(name)
+                    if r["docs"][hi].get(name) != T.norm_doc(ir["params"][name].get("doc")) or len(ir["params"][name].get("doc") or "") > 45:
+                        rewritten.add(name)     # (a long description: the word wrapper may break inside the default -- not in the model)
                     if name in rewritten:
                         out["outside_model"] += 1
                         continue
@@ -152,6 +152,13 @@ def collect(ctx, n_ir, n3):
         ("verbose", {"typ": "Optional[bool]", "doc": "first item to use", "default": False}),
         ("rate", {"typ": "Optional[float]", "doc": "base directory", "default": 0.5})))}
     work.append((corpus_stable, True, all2 + all3))
+    # sweep: a string default with a blank inside, behind descriptions of every length around the wrap column, so that the word wrapper
+    # of the docstring hop breaks the "Defaults to ..." sentence before, inside and after the quoted default
+    for L in range(52, 72):
+        doc = ("the optimiser that is used when nothing else has been configured by the caller " * 2)[:L].rstrip()
+        sweep_ir = {"name": "Thing", "doc": "Thing description.", "returns": None, "params": OrderedDict((
+            ("optimizer", {"typ": "str", "doc": doc, "default": "adam w"}), ("last", {"typ": "int", "doc": "the value", "default": 5})))}
+        work.append((sweep_ir, False, [["class", "docstring", "class"], ["docstring", "function"], ["function", "docstring"], ["docstring+", "class"]]))
     agg = {"n": 0, "chains": 0, "stable_chains": 0, "outside_model": 0, "compared": 0}
     items, corr = [], []
     for r in run_cases(worker, [[w] for w in work], chunk=1):
